@@ -156,6 +156,9 @@ type vfWorld struct {
 	loginAttempts   []time.Time
 
 	conc          *concOutcome
+	attempts      []vfAttempt
+	totpAcceptAt  map[string]time.Time
+	lockouts      map[int]time.Duration
 	raw           map[string]*sql.DB
 	offlineDigest string
 	cacheSynced   map[string]bool
